@@ -74,3 +74,45 @@ package cache
 //@   at call lockedfile.Write#1: requires !recentTrim(rdErr == nil, sid(rec), tns(nowV))
 //@   ensures err == nil && !recentTrim(rdErr == nil, sid(rec), tns(nowV)) ==> fsWrites[joinP(c.dir, "trim.txt")] > old(fsWrites)[joinP(c.dir, "trim.txt")]
 //@   ensures recentTrim(rdErr == nil, sid(rec), tns(nowV)) ==> err == nil && fsExists == old(fsExists) && fsMtime == old(fsMtime) && fsBytes == old(fsBytes) && fsSize == old(fsSize) && fsData == old(fsData)
+
+// ---- C05: lookups return what the files say or not-found, and never panic ----
+//@ property C05: (*Cache).get, get$1, (*Cache).Get, (*Cache).GetBytes, (*Cache).GetFile, (*Cache).OutputFile, (*Cache).fileName, (*Cache).used
+
+//@ func get$1
+//@   names (e, err)
+//@   ensures err != nil && isType(err, entryNotFoundError)
+
+// get: every index/slice of the 176-byte buffer and both hex.Decode calls are in
+// bounds for arbitrary file contents; an error is always a not-found error; success
+// implies the fixed-size record layout, a matching action id and non-negative fields.
+//@ func (*Cache).get
+//@   names (e, err)
+//@   requires c != nil
+//@   at call io.ReadFull#1: bind ebuf = buf, rdN = n
+//@   at call (*cache.Cache).used#1: requires true
+//@   loop 1: invariant 0 <= i && i <= len(esize)
+//@   loop 2: invariant 0 <= i && i <= len(etime)
+//@   ensures err != nil ==> isType(err, entryNotFoundError)
+//@   ensures err == nil ==> rdN == 175 && at(ebuf, lo(ebuf)) == 'v' && at(ebuf, lo(ebuf)+1) == '1' && at(ebuf, lo(ebuf)+2) == ' ' && at(ebuf, lo(ebuf)+67) == ' ' && at(ebuf, lo(ebuf)+132) == ' ' && at(ebuf, lo(ebuf)+153) == ' ' && at(ebuf, lo(ebuf)+174) == '\n'
+//@   ensures err == nil ==> e.Size >= 0 && tns(e.Time) >= 0
+//@   ensures err == nil ==> forall j int {id[j]} :: 0 <= j && j < 32 ==> id[j] == hexByte(ebuf[3:67], j)
+//@   ensures err == nil ==> forall j int {e.OutputID[j]} :: 0 <= j && j < 32 ==> e.OutputID[j] == hexByte(ebuf[68:132], j)
+
+//@ func (*Cache).Get
+//@   names (e, err)
+//@   requires c != nil
+//@   ensures err != nil ==> isType(err, entryNotFoundError)
+//@   ensures err == nil ==> e.Size >= 0
+
+// GetBytes: not-found, or bytes whose SHA-256 equals the reported OutputID.
+//@ func (*Cache).GetBytes
+//@   names (data, e, err)
+//@   requires c != nil
+//@   ensures err == nil ==> sha256A(data) == e.OutputID
+//@   ensures err != nil ==> isType(err, entryNotFoundError)
+
+// GetFile: not-found, or a file whose length equals the reported size.
+//@ func (*Cache).GetFile
+//@   requires c != nil
+//@   ensures err == nil ==> fsSize[file] == entry.Size && fsExists[file]
+//@   ensures err != nil ==> isType(err, entryNotFoundError)
